@@ -273,8 +273,12 @@ pub fn run_c05(p: &Params) -> Outcome {
         poll_pct: 30,
         drop_vec_pct: 4,
         drop_all_pm: 0,
+        init_max: 5,
     };
     out.merge(random("C05", p, n, &g, &nt, "c05-rand"));
+    // large vectors (imbl chunks hold 64 elements)
+    let big = GenCfg { maxlen: 160, init_max: 130, vmax: 500, max_ops: 60, ..g };
+    out.merge(random("C05", p, p.n(4_000, 60_000), &big, &nt, "c05-rand-large"));
     out
 }
 
@@ -339,8 +343,11 @@ pub fn run_c06(p: &Params) -> Outcome {
         poll_pct: 12,
         drop_vec_pct: 3,
         drop_all_pm: 0,
+        init_max: 5,
     };
     out.merge(random("C06", p, n, &g, &nt, "c06-rand"));
+    let big = GenCfg { maxlen: 160, init_max: 130, vmax: 500, max_ops: 60, ..g };
+    out.merge(random("C06", p, p.n(4_000, 60_000), &big, &nt, "c06-rand-large"));
     if out.violations.is_empty() && out.ev.get("resets_delivered") == 0 {
         out.inconclusive.push("no Reset was delivered in the whole run".into());
     }
@@ -460,6 +467,7 @@ pub fn run_c07(p: &Params) -> Outcome {
         poll_pct: 25,
         drop_vec_pct: 3,
         drop_all_pm: 15,
+        init_max: 5,
     };
     out.merge(random("C07", p, n, &g, &nt, "c07-rand"));
     out
@@ -556,6 +564,7 @@ pub fn run_c08(p: &Params) -> Outcome {
         poll_pct: 20,
         drop_vec_pct: 40,
         drop_all_pm: 0,
+        init_max: 5,
     };
     out.merge(random("C08", p, n, &g, &nt, "c08-rand"));
     out
@@ -622,7 +631,10 @@ pub fn run_c17(p: &Params) -> Outcome {
         poll_pct: 20,
         drop_vec_pct: 2,
         drop_all_pm: 15,
+        init_max: 5,
     };
     out.merge(random("C17", p, n, &g, &nt, "c17-rand"));
+    let big = GenCfg { maxlen: 160, init_max: 130, vmax: 500, max_ops: 60, ..g };
+    out.merge(random("C17", p, p.n(3_000, 40_000), &big, &nt, "c17-rand-large"));
     out
 }
